@@ -68,7 +68,7 @@ RunResult exec_plan(const Plan& p, const ExecFlags& f)
             // that judge termination tighten them from the reference's own step count
             int64_t n = int64_t(eo.input.size());
             rec.step_budget = 4096 + 64 * n;
-            rec.rd_budget = 65536 + 4096 * n;
+            rec.rd_budget = 65536 + 64 * n;      // reads+advances, and lexer steps: a correct driver is linear in n
             tw.ops.push_back(eo);
             tw.entries.push_back(find_fleet(po.parser));
             tw.outs.emplace_back();
